@@ -155,7 +155,14 @@ class Prov:
                         out.add(("def", norm(n["rd"])))
                 continue
             if k == "Lit":
-                out.add(("lit", n.get("v")))
+                v = n.get("v")
+                if isinstance(v, list):
+                    from facts import fmt_pieces
+                    for piece in fmt_pieces(v):
+                        if piece is not None:
+                            out.add(("lit", piece))
+                else:
+                    out.add(("lit", v))
                 continue
             if k == "Field":
                 if n.get("adt"):
